@@ -280,7 +280,9 @@ func checkC19(c C19Case) Verdict {
 		src, start := c.file(body)
 		names, srcs := []string{c.Name}, []string{src}
 		for d := 1; d <= depth; d++ {
-			inner := "{1 < 'a'}"
+			// the innermost failure: a type error in an operator, a reference through a missing value, a
+			// failing function, a failing directive
+			inner := []string{"{1 < 'a'}", "{$x.nokey.deeper}", "{length($y)}", "{$y|truncate:'w'}", "{$x[0][1]}"}[(c.Fault+at)%5]
 			if d < depth {
 				inner = fmt.Sprintf("{call ns.d%d.t /}", d+1)
 			}
